@@ -91,7 +91,7 @@ def run_shard(spec, acc):
     by_key = {}
     by_hash = {}
     cross = []
-    n_fam = 8 if quick else 40
+    n_fam = 8 if quick else 150
 
     def observe(dec, d, payload, nb, src=1, dst=255, prio=3, tag=""):
         try:
